@@ -178,7 +178,7 @@ def cases_for(tier):
                     continue
                 if (ugp, cfg) == ("default", True) and m > 7:
                     continue
-                if tier == "quick" and m >= 12 and (api == "alias"):
+                if tier == "quick" and m >= 12 and (api == "alias" or (ugp is True and cycle)):
                     continue
                 if m >= 17 and (ugp is not False or api == "alias"):
                     continue
@@ -189,7 +189,7 @@ def cases_for(tier):
 def _small(c):
     """Cases cheap enough to repeat on a Solver that is already in use."""
     if "shape" in c:
-        return (c["shape"][0] + 1) * (c["shape"][1] + 1) <= 9
+        return (c["shape"][0] + 1) * (c["shape"][1] + 1) <= 6
     return c.get("n", 9) <= 3 and len(c.get("edges", ())) <= 4
 
 
